@@ -21,6 +21,7 @@ package goldilocks
 // ------------------------------------------------------------------ hints (plain Go)
 
 //@ func MulAddHint(_ *big.Int, inputs []*big.Int, results []*big.Int) (err error)
+//@   locals operand product sum quotient remainder
 //@   props C05 C07 C02
 //@   plain nopanic
 //@   modifies results
@@ -31,6 +32,7 @@ package goldilocks
 //@   ensures results[1] == (inputs[0]*inputs[1] + inputs[2]) % P
 
 //@ func ReduceHint(_ *big.Int, inputs []*big.Int, results []*big.Int) (err error)
+//@   locals input quotient remainder
 //@   props C05 C07 C02
 //@   plain nopanic
 //@   modifies results
@@ -41,6 +43,7 @@ package goldilocks
 //@   ensures results[1] == inputs[0] % P
 
 //@ func InverseHint(_ *big.Int, inputs []*big.Int, results []*big.Int) (err error)
+//@   locals input inputGl resultGl result
 //@   props C05 C07 C02
 //@   plain nopanic
 //@   modifies results
@@ -51,6 +54,7 @@ package goldilocks
 //@   ensures implies(inputs[0] != 0, (results[0] * inputs[0]) % P == 1)
 
 //@ func SplitLimbsHint(_ *big.Int, inputs []*big.Int, results []*big.Int) (err error)
+//@   locals input two_32
 //@   props C05 C06 C02
 //@   plain nopanic
 //@   modifies results
@@ -87,12 +91,14 @@ package goldilocks
 //@   sound_ensures[deferred] implies(p.rangeCheckerType == COMMIT, x < pow2(nbBits))
 
 //@ func getOptimalBasewidth(api frontend.API, collected []checkedVariable) (res int)
+//@   locals ft ok
 //@   props C06
 //@   plain
 //@   flag trusted
 //@   ensures true
 
 //@ func (p *Chip) checkCollected(api frontend.API) (err error)
+//@   locals nbBits v
 //@   props C05 C06 C14 C17
 //@   circuit sound-only
 //@   requires chipok(p)
@@ -107,12 +113,14 @@ package goldilocks
 //@                p.rangeCheckCollected[k].v < pow2(p.rangeCheckCollected[k].bits))
 
 //@ func New(api frontend.API) (res *Chip)
+//@   locals chip ok c rangeCheckerType useBitDecomp
 //@   props C05 C06 C14 C17
 //@   circuit sound-only
 //@   ensures chipok(res)
 //@   ensures implies(res.rangeCheckerType == COMMIT, deferred("goldilocks.Chip.checkCollected", res))
 
 //@ func (p *Chip) RangeCheck(x Variable)
+//@   locals result err mostSigLimb leastSigLimb shouldCheck
 //@   props C05 C06 C07 C17
 //@   circuit
 //@   requires chipok(p)
@@ -131,6 +139,7 @@ package goldilocks
 // ------------------------------------------------------------------ base field gadgets
 
 //@ func (p *Chip) MulAdd(a Variable, b Variable, c Variable) (res Variable)
+//@   locals result err quotient remainder cLimbCopy lhs rhs
 //@   props C05 C07
 //@   circuit
 //@   requires chipok(p)
@@ -181,12 +190,14 @@ package goldilocks
 //@   ensures res.Limb == a.Limb * b.Limb
 
 //@ func (p *Chip) MulAddNoReduce(a Variable, b Variable, c Variable) (res Variable)
+//@   locals cLimbCopy
 //@   props C05 C07
 //@   circuit
 //@   requires a.Limb * b.Limb + c.Limb < R
 //@   ensures res.Limb == a.Limb * b.Limb + c.Limb
 
 //@ func (p *Chip) ReduceWithMaxBits(x Variable, maxNbBits uint64) (res Variable)
+//@   locals result err quotient remainder
 //@   props C05 C07
 //@   circuit
 //@   requires chipok(p)
@@ -203,6 +214,7 @@ package goldilocks
 //@   ensures res.Limb == x.Limb % P
 
 //@ func (p *Chip) Inverse(x Variable) (inv Variable, hasInv frontend.Variable)
+//@   locals result err inverse isZero hasInv product productToCheck
 //@   props C05 C07
 //@   circuit
 //@   requires chipok(p)
@@ -245,6 +257,7 @@ package goldilocks
 //@ def dv(x) = x / P
 
 //@ func (p *Chip) AddExtension(a QuadraticExtensionVariable, b QuadraticExtensionVariable) (res QuadraticExtensionVariable)
+//@   locals c0 c1
 //@   props C05 C08
 //@   circuit
 //@   requires chipok(p) && canonQE(a) && canonQE(b)
@@ -254,12 +267,14 @@ package goldilocks
 //@   ensures res == qe_addo(a, b)
 
 //@ func (p *Chip) AddExtensionNoReduce(a QuadraticExtensionVariable, b QuadraticExtensionVariable) (res QuadraticExtensionVariable)
+//@   locals c0 c1
 //@   props C05 C08
 //@   circuit
 //@   requires a[0].Limb + b[0].Limb < R && a[1].Limb + b[1].Limb < R
 //@   ensures res == tuple(a[0].Limb + b[0].Limb, a[1].Limb + b[1].Limb)
 
 //@ func (p *Chip) SubExtension(a QuadraticExtensionVariable, b QuadraticExtensionVariable) (res QuadraticExtensionVariable)
+//@   locals c0 c1
 //@   props C05 C08
 //@   circuit
 //@   requires chipok(p) && canonQE(a) && canonQE(b)
@@ -269,12 +284,14 @@ package goldilocks
 //@   ensures res == qe_subo(a, b)
 
 //@ func (p *Chip) SubExtensionNoReduce(a QuadraticExtensionVariable, b QuadraticExtensionVariable) (res QuadraticExtensionVariable)
+//@   locals c0 c1
 //@   props C05 C08
 //@   circuit
 //@   requires a[0].Limb + b[0].Limb*(P-1) < R && a[1].Limb + b[1].Limb*(P-1) < R
 //@   ensures res == tuple(a[0].Limb + b[0].Limb*(P-1), a[1].Limb + b[1].Limb*(P-1))
 
 //@ func (p *Chip) MulExtensionNoReduce(a QuadraticExtensionVariable, b QuadraticExtensionVariable) (res QuadraticExtensionVariable)
+//@   locals c0o0 c0o1 c0 c1
 //@   props C05 C08
 //@   circuit
 //@   requires 7*a[1].Limb < R
@@ -282,6 +299,7 @@ package goldilocks
 //@   ensures res == qe_raw_mul(a, b)
 
 //@ func (p *Chip) MulExtension(a QuadraticExtensionVariable, b QuadraticExtensionVariable) (res QuadraticExtensionVariable)
+//@   locals product
 //@   props C05 C08
 //@   circuit
 //@   requires chipok(p) && canonQE(a) && canonQE(b)
@@ -291,6 +309,7 @@ package goldilocks
 //@   ensures res == qe_mulo(a, b)
 
 //@ func (p *Chip) MulAddExtension(a QuadraticExtensionVariable, b QuadraticExtensionVariable, c QuadraticExtensionVariable) (res QuadraticExtensionVariable)
+//@   locals product sum
 //@   props C05 C08
 //@   circuit
 //@   requires chipok(p) && canonQE(b) && canonQE(c)
@@ -301,6 +320,7 @@ package goldilocks
 //@   ensures res == qe_muladdo(a, b, c)
 
 //@ func (p *Chip) MulAddExtensionNoReduce(a QuadraticExtensionVariable, b QuadraticExtensionVariable, c QuadraticExtensionVariable) (res QuadraticExtensionVariable)
+//@   locals product sum
 //@   props C05 C08
 //@   circuit
 //@   requires 7*a[1].Limb < R
@@ -308,6 +328,7 @@ package goldilocks
 //@   ensures res == tuple(a[0].Limb*b[0].Limb + 7*a[1].Limb*b[1].Limb + c[0].Limb, a[0].Limb*b[1].Limb + a[1].Limb*b[0].Limb + c[1].Limb)
 
 //@ func (p *Chip) SubMulExtension(a QuadraticExtensionVariable, b QuadraticExtensionVariable, c QuadraticExtensionVariable) (res QuadraticExtensionVariable)
+//@   locals difference product
 //@   props C05 C08
 //@   circuit
 //@   requires chipok(p) && canonQE(a) && canonQE(b) && canonQE(c)
@@ -334,11 +355,13 @@ package goldilocks
 //@   ensures res == tuple(x[0].Limb % P, x[1].Limb % P)
 
 //@ func (p *Chip) IsZero(x QuadraticExtensionVariable) (res frontend.Variable)
+//@   locals x0IsZero x1IsZero
 //@   props C08
 //@   circuit
 //@   ensures res == ite(x[0].Limb == 0 && x[1].Limb == 0, 1, 0)
 
 //@ func (p *Chip) Lookup(b frontend.Variable, x QuadraticExtensionVariable, y QuadraticExtensionVariable) (res QuadraticExtensionVariable)
+//@   locals c0 c1
 //@   props C08
 //@   circuit
 //@   honest b == 0 || b == 1
@@ -346,6 +369,7 @@ package goldilocks
 //@   ensures res == ite(b == 1, y, x)
 
 //@ func (p *Chip) Lookup2(b0 frontend.Variable, b1 frontend.Variable, qe0 QuadraticExtensionVariable, qe1 QuadraticExtensionVariable, qe2 QuadraticExtensionVariable, qe3 QuadraticExtensionVariable) (res QuadraticExtensionVariable)
+//@   locals c0 c1
 //@   props C08
 //@   circuit
 //@   honest (b0 == 0 || b0 == 1) && (b1 == 0 || b1 == 1)
@@ -390,6 +414,7 @@ package goldilocks
 //@ axiom qe_div_unique(a0, a1, b0, b1, c0, c1) = implies(0 <= a0 && a0 < P && 0 <= a1 && a1 < P && 0 <= b0 && b0 < P && 0 <= b1 && b1 < P && 0 <= c0 && c0 < P && 0 <= c1 && c1 < P && !(b0 == 0 && b1 == 0) && (b0*c0 + 7*b1*c1) % P == a0 && (b0*c1 + b1*c0) % P == a1, c0 == qe_div0(a0, a1, b0, b1) && c1 == qe_div1(a0, a1, b0, b1))
 
 //@ func (p *Chip) InverseExtension(a QuadraticExtensionVariable) (res QuadraticExtensionVariable, hasInv frontend.Variable)
+//@   locals aIsZero aPowRMinus1 aPowR aPowRInv hasInv
 //@   props C05 C08
 //@   circuit
 //@   requires chipok(p) && canonQE(a)
@@ -406,6 +431,7 @@ package goldilocks
 //@   ensures res == qe_inv(a)
 
 //@ func (p *Chip) DivExtension(a QuadraticExtensionVariable, b QuadraticExtensionVariable) (res QuadraticExtensionVariable, hasInv frontend.Variable)
+//@   locals bInv hasInv
 //@   props C05 C08
 //@   circuit
 //@   requires chipok(p) && canonQE(a) && canonQE(b)
@@ -424,6 +450,7 @@ package goldilocks
 //@ recdef qe_horner(t []QE, s QE, i int) QE = ite(i >= len(t), tuple(0, 0), qe_muladd(qe_horner(t, s, i + 1), s, t[i]))
 
 //@ func (p *Chip) ReduceWithPowers(terms []QuadraticExtensionVariable, scalar QuadraticExtensionVariable) (res QuadraticExtensionVariable)
+//@   locals sum i
 //@   props C05 C08
 //@   circuit
 //@   requires chipok(p) && canonQE(scalar) && forall(k, 0, len(terms), canonQE(terms[k]))
@@ -436,6 +463,7 @@ package goldilocks
 //@ recdef qe_ipsum(t []QE2, c int, k int) QE = ite(k <= 0, tuple(0, 0), tuple(qe_ipsum(t, c, k-1)[0] + ((t[k-1][0]*c) % P)*t[k-1][2] + 7*((t[k-1][1]*c) % P)*t[k-1][3], qe_ipsum(t, c, k-1)[1] + ((t[k-1][0]*c) % P)*t[k-1][3] + ((t[k-1][1]*c) % P)*t[k-1][2]))
 
 //@ func (p *Chip) InnerProductExtension(constant Variable, startingAcc QuadraticExtensionVariable, pairs [][2]QuadraticExtensionVariable) (res QuadraticExtensionVariable)
+//@   locals acc i a b mul
 //@   props C05 C08
 //@   circuit
 //@   requires chipok(p) && canon(constant) && canonQE(startingAcc) && len(pairs) <= 256
@@ -455,6 +483,7 @@ package goldilocks
 //@   reveal qe_mulo0 qe_mulo1
 
 //@ func (p *Chip) ExpExtension(a QuadraticExtensionVariable, exponent uint64) (res QuadraticExtensionVariable)
+//@   locals current product i
 //@   props C05 C08
 //@   circuit
 //@   requires chipok(p) && canonQE(a)
@@ -482,6 +511,7 @@ package goldilocks
 //@ def u7(x) = (x*7) % P
 
 //@ func (p *Chip) AddExtensionAlgebra(a QuadraticExtensionAlgebraVariable, b QuadraticExtensionAlgebraVariable) (res QuadraticExtensionAlgebraVariable)
+//@   locals sum i
 //@   props C05 C08
 //@   circuit
 //@   requires chipok(p) && canonQEA(a) && canonQEA(b)
@@ -491,6 +521,7 @@ package goldilocks
 //@   ensures res == qea_addo(a, b)
 
 //@ func (p *Chip) SubExtensionAlgebra(a QuadraticExtensionAlgebraVariable, b QuadraticExtensionAlgebraVariable) (res QuadraticExtensionAlgebraVariable)
+//@   locals diff i
 //@   props C05 C08
 //@   circuit
 //@   requires chipok(p) && canonQEA(a) && canonQEA(b)
@@ -500,6 +531,7 @@ package goldilocks
 //@   ensures res == qea_subo(a, b)
 
 //@ func (p *Chip) ScalarMulExtensionAlgebra(a QuadraticExtensionVariable, b QuadraticExtensionAlgebraVariable) (res QuadraticExtensionAlgebraVariable)
+//@   locals product i
 //@   props C05 C08
 //@   circuit
 //@   requires chipok(p) && canonQE(a) && canonQEA(b)
@@ -509,6 +541,7 @@ package goldilocks
 //@   ensures res == qea_smulo(a, b)
 
 //@ func (p *Chip) MulExtensionAlgebra(a QuadraticExtensionAlgebraVariable, b QuadraticExtensionAlgebraVariable) (res QuadraticExtensionAlgebraVariable)
+//@   locals inner innerW i j idx j idx product i acc
 //@   props C05 C08
 //@   circuit
 //@   requires chipok(p) && canonQEA(a) && canonQEA(b)
@@ -527,6 +560,7 @@ package goldilocks
 //@ recdef qea_pint(dom []int, vals []QE2, ws []int, point QE2, e0 QE2, p0 QE2, k int) [8]int = ite(k <= 0, tuple(e0, p0), pint_step(qea_pint(dom, vals, ws, point, e0, p0, k - 1), dom[k-1], qea_at(vals[k-1], 0), ws[k-1], qea_at(point, 0)))
 
 //@ func (p *Chip) PartialInterpolateExtAlgebra(domain []goldilocks.Element, values []QuadraticExtensionAlgebraVariable, barycentricWeights []goldilocks.Element, point QuadraticExtensionAlgebraVariable, initialEval QuadraticExtensionAlgebraVariable, initialPartialProd QuadraticExtensionAlgebraVariable) (res0 QuadraticExtensionAlgebraVariable, res1 QuadraticExtensionAlgebraVariable)
+//@   locals n newEval newPartialProd i val x xField xQE xQEAlgebra weight term weightedVal tmp
 //@   props C05 C08
 //@   circuit
 //@   requires chipok(p) && canonQEA(point) && canonQEA(initialEval) && canonQEA(initialPartialProd)
@@ -543,6 +577,7 @@ package goldilocks
 // P is prime: a non-zero residue has a non-zero square.  Number theory, assumed (listed in the evidence).
 //@ axiom gl_square_nonzero(x) = implies(0 < x && x < P, (x * x) % P != 0)
 //@ func PrimitiveRootOfUnity(nLog uint64) (res goldilocks.Element)
+//@   locals res i
 //@   props C13
 //@   plain
 //@   requires nLog <= 32
@@ -552,12 +587,14 @@ package goldilocks
 //@   loop 0 use gl_square_nonzero(res)
 
 //@ func Uint64ArrayToQuadraticExtensionArray(input [][]uint64) (res []QuadraticExtensionVariable)
+//@   locals output i
 //@   props C19
 //@   plain
 //@   ensures len(res) == len(input) && forall(k, 0, len(input), len(input[k]) >= 2 && res[k][0].Limb == input[k][0] && res[k][1].Limb == input[k][1])
 //@   loop 0 invariant 0 <= i && i <= len(input) && len(output) == i && forall(k, 0, i, len(input[k]) >= 2 && output[k][0].Limb == input[k][0] && output[k][1].Limb == input[k][1])
 
 //@ func Uint64ArrayToVariableArray(input []uint64) (res []Variable)
+//@   locals output i
 //@   props C19 C16
 //@   plain
 //@   ensures len(res) == len(input) && forall(k, 0, len(input), res[k].Limb == input[k])
